@@ -97,6 +97,14 @@ CLAIMED = {
              "(square boundaries, seeded grids, every operation sequence of the model's domain, long random ones) are records judged by TLC.",
         note="function-level seams as in tests/; 32-bit TLC integers: ages >= 2^31 only in the C sweep; daemon-level retry histories (virtual clock) are added by the queue-manager controller",
         design="5 C15"),
+    "C16": dict(
+        technique="TLA+ model of the trigger FIFO with injectors and the daemon's re-arm/scan fragment checked exhaustively by TLC (safety + liveness, wrong orders required to fail) + the same interleavings executed on the real qmail-queue/qmail-send under the system-call gate with a frozen clock, traces validated by TLC",
+        text="Trigger.tla models the FIFO as this kernel implements it and every interleaving of 1-3 injectors with the daemon (NoLostWakeup, EventuallyScanned, rescan disabled). The real programs "
+             "are stepped through placements of the injector's {link todo, open, write, close trigger} among the daemon's schedule points (calls on lock/trigger, opendir/readdir of todo/, select) "
+             "in two scenarios; at the final quiescent point every accepted message must have been preprocessed; select time-outs at every quiescent point of seeded histories are judged by the "
+             "C16 clauses of the monitor.",
+        note="readdir behaves as the kernel does in the recorded runs (glibc reads the directory at the first readdir, so re-arming between opendir and the first readdir is not observable here)",
+        design="5 C16"),
     "C17": dict(
         technique="TLA+ RFC 822/821 readers and documented rewriting vs. transcriptions of quote.c/token822.c/addrparse/rwgeneric/qmail-inject field logic checked by TLC (three models) + TLC validation of 45k real qmail-inject / qmail-remote -> qmail-smtpd round trips and generated header lists",
         text="Addr.tla holds the documents' side and the transcriptions; AddrQuote (every local part over 21 byte classes up to length 4/5), AddrList (addrlist stepped per token over an abstract "
